@@ -195,13 +195,12 @@ theorem instant_first_poll_enters_pre_start (a : Actor) (supOk : Bool) (hph : a.
 
 /-! ### E-SRC obligations -/
 
-/-- The thread-local runtime (`thread_local/inner.rs`) runs the same loop: its `processing_loop`,
-`process_message`, `handle_signal`, `do_post_start`, `do_post_stop` are token-identical to the
-`actor.rs` functions the model follows (modulo the boxed loop future). -/
-theorem src_thread_local_twins :
-    Extracted.threadLocalTwins =
-      [("processing_loop", true), ("process_message", true), ("handle_signal", true),
-       ("do_post_start", true), ("do_post_stop", true)] := by decide
+/- (removed in round 5) `src_thread_local_twins` demanded that `processing_loop`, `process_message`, `handle_signal`,
+`do_post_start`, `do_post_stop` of `thread_local/inner.rs` be token-identical to their `actor.rs` twins. That is more
+than C01 states: a behaviour-preserving edit of ONE twin (a merged or-pattern arm, a reworded trace line — benign edits
+A-3 and A-10) broke it. The thread-local runtime is tied to the model by its own engine runs (`e-lts-thread-local`,
+`e-lts-adapter`), which execute the real thread-local loop op by op against the same model; `Extracted.threadLocalTwins`
+is still generated for information. -/
 
 theorem src_status : Extracted.statusDiscriminants = Life.statusTable := by decide
 
@@ -304,7 +303,6 @@ end C01
 #print axioms C01.spawn_enters_pre_start
 #print axioms C01.ready_poll_enters_post_start
 #print axioms C01.instant_first_poll_enters_pre_start
-#print axioms C01.src_thread_local_twins
 #print axioms C01.src_status
 #print axioms C01.post_stop_at_most_once
 #print axioms C01.graceful_exit_passes_post_stop
